@@ -32,6 +32,16 @@ def norm(text):
 
 
 def make_reply(code, text, mode):
+    if mode.startswith('late:'):
+        # the code is changed after the message (and its enhanced status code) was set, as handlers do with a prepared reply
+        r = Reply(mode[5:], text)
+        r.code = code
+        return r
+    if mode == 'msgfirst':
+        r = Reply()
+        r.message = text
+        r.code = code
+        return r
     r = Reply(code, text)
     if mode == 'disabled':
         r.enhanced_status_code = False
@@ -278,7 +288,7 @@ def roundtrip_case(draw):
     replies = []
     for _ in range(n):
         text = draw(reply_text())
-        mode = draw(st.sampled_from(['auto', 'auto', 'disabled']))
+        mode = draw(st.sampled_from(['auto', 'auto', 'disabled', 'late:250', 'late:451', 'late:550', 'msgfirst']))
         if mode == 'disabled' and ESC_LOOK.match(text):
             mode = 'auto'
         replies.append((draw(_codes), text, mode))
@@ -362,6 +372,8 @@ def replay(case):
         if not text or text[:1].isspace() or not re.match(r'^[2345]\d\d$', code):
             return []
         if mode == 'disabled' and ESC_LOOK.match(text):
+            return []
+        if mode not in ('auto', 'disabled', 'msgfirst') and not re.match(r'^late:[2345]\d\d$', mode):
             return []
     return judge_roundtrip(replies, sorted(set(int(c) for c in case.get('cuts', []))))
 
